@@ -17,7 +17,7 @@ use std::collections::HashMap;
 use rusty_basic::instruction_generator::{Instruction, InstructionGeneratorResult};
 use rusty_basic::interpreter::verif::{VmDepths, VmDispatch};
 
-pub const NDEPTH: usize = 6;
+pub const NDEPTH: usize = 7;
 pub const DEPTH_NAMES: [&str; NDEPTH] = [
     "value_stack",
     "register_stack",
@@ -25,6 +25,7 @@ pub const DEPTH_NAMES: [&str; NDEPTH] = [
     "by_ref_stack",
     "context_states",
     "stacktrace",
+    "function_results",
 ];
 
 fn vec_of(d: &VmDepths) -> [i64; NDEPTH] {
@@ -35,6 +36,7 @@ fn vec_of(d: &VmDepths) -> [i64; NDEPTH] {
         d.by_ref_stack as i64,
         d.context_states as i64,
         d.stacktrace as i64,
+        d.function_results as i64,
     ]
 }
 
@@ -275,6 +277,29 @@ impl Monitor {
                         ),
                     );
                 }
+            }
+        }
+
+        // I3 for any END of the main module (also in programs that may END inside loops):
+        // no statement of the main module is under way, so nobody waits for a function
+        // result any more
+        if matches!(instruction, Instruction::Halt)
+            && !self.tainted
+            && self.regions.len() == 1
+            && Some(pc) != self.final_halt_pc
+            && !self.strict_end
+        {
+            let init = self.initial.unwrap();
+            if depths.function_results != init.function_results {
+                self.violation(
+                    "I3",
+                    pc,
+                    Some(6),
+                    format!(
+                        "{} function results are pending at END, {} at start",
+                        depths.function_results, init.function_results
+                    ),
+                );
             }
         }
 
